@@ -8,17 +8,19 @@
 // is an error, i.e. a broken tie that the check reports, never a guess.
 //
 // Subset:
-//   types       float64 -> α, bool -> Bool, int -> Int, named structs / named fixed arrays whose
-//               members are in the subset -> generated `structure`s (array element i = field ei),
-//               pointers to those (read, or written only through a pointer receiver: such a method
-//               becomes a function returning the new receiver value), tuples for multiple results
-//   statements  := = op= ++ -- var return if/else (early returns allowed; a continuation is
-//               duplicated into both branches, or the assigned variables are joined when neither
-//               branch returns), `for i, x := range <fixed array>` and `for i := a; i < b; i++`
-//               with constant bounds (unrolled), calls of receiver-mutating methods on a local
-//   expressions + - * / unary -, comparisons, && || !, field access, constant index, composite
-//               literals, calls to translatable functions/methods, math.Sqrt/Abs/Min/Max,
-//               float64 constants (integers and decimal literals)
+//
+//	types       float64 -> α, bool -> Bool, int -> Int, named structs / named fixed arrays whose
+//	            members are in the subset -> generated `structure`s (array element i = field ei),
+//	            pointers to those (read, or written only through a pointer receiver: such a method
+//	            becomes a function returning the new receiver value), tuples for multiple results
+//	statements  := = op= ++ -- var return if/else (early returns allowed; a continuation is
+//	            duplicated into both branches, or the assigned variables are joined when neither
+//	            branch returns), `for i, x := range <fixed array>` and `for i := a; i < b; i++`
+//	            with constant bounds (unrolled), calls of receiver-mutating methods on a local
+//	expressions + - * / unary -, comparisons, && || !, field access, constant index, composite
+//	            literals, calls to translatable functions/methods, math.Sqrt/Abs/Min/Max,
+//	            float64 constants (integers and decimal literals)
+//
 // Float `==`/`!=` become feq (¬a<b ∧ ¬b<a), the same on every non-NaN pair.
 package go2lean
 
